@@ -508,11 +508,14 @@ class SimRunner:
 
     def get_output_for(self, time: Time) -> OutputData:
         assert self.outputs is not None
-        for data_time, value in reversed(self.outputs.items()):
-            if data_time <= time:
-                return value
-
-        return {}
+        # The cache is not necessarily filled in the order of time
+        # (initial data of several time-shifted connections, output
+        # times set by the simulator), so look for the newest entry
+        # instead of the one that was inserted last.
+        data_time = max((t for t in self.outputs if t <= time), default=None)
+        if data_time is None:
+            return {}
+        return self.outputs[data_time]
 
     async def stop(self):
         """
